@@ -25,7 +25,7 @@ ASSUMPTIONS = [
     'ddl=True sessions and the nested-serializable refusal of _enter are outside the model; immediate/strict/serializable/optimistic are varied in the '
     'correspondence run and shown not to influence the observations',
 ]
-RULE = ('every implementation run is judged twice - by the Coq model (correspondence) and by the statement-level oracle (search): `evaluations` counts both judgements, `distinct_nontrivial` counts each distinct run once. ' 'exhaustive: decorator sessions with retry 0..3 x every stream of body outcomes of length retry+1 over {finish, raise one of 6 exception kinds '
+RULE = ('every implementation run is judged twice - by the Coq model (correspondence) and by the statement-level oracle (search): `evaluations` counts both judgements, `distinct_nontrivial` counts each distinct run once. ' 'exhaustive: decorator sessions with retry 0..3 x every stream of body outcomes of length retry+1 over {finish, raise one of 6 exception kinds (5 for length 4 in the quick tier) '
         '(plain / allowed / retryable / both / should_retry / allowed+should_retry)} (x poisoned-write variants for the shorter streams) x list-or-callable '
         'predicates x option flags; nested programs (with / decorated call / try / sequence, depth <= 2 exhaustive, depth 3 sampled from the seed); generator '
         'step sequences up to 3 resumptions; Flask and Bottle requests. non-trivial = the run retried, or a commit failed, or a session was nested, or an '
@@ -49,7 +49,7 @@ def stream_cases(ctx, deep=False):
     k = 0
     maxr = 4 if (deep and ctx.thorough) else 3
     for r in range(0, maxr + 1):
-        alphabet = OUTS if r <= 3 else [-1, 0, 1, 2, 3]
+        alphabet = OUTS if (r <= 2 or ctx.thorough) and r <= 3 else ([-1, 0, 1, 2, 3, 4] if r == 3 else [-1, 0, 1, 2, 3])     # quick: length-4 streams over 6 outcomes
         for outs in itertools.product(alphabet, repeat=r + 1):
             reps = REPS if r <= 1 or ctx.thorough else [REPS[k % 4]]
             for rep in reps:
